@@ -3,6 +3,7 @@ package main
 import (
 	"fmt"
 	"go/ast"
+	"go/constant"
 	"go/token"
 	"go/types"
 	"strings"
@@ -177,6 +178,14 @@ func ruleGate(c *Ctx) {
 			})
 			report("G-core", ok, n.Ast, "the commit is reachable from the line receive only through `Atoi(parts[0]) == CoreProtocolVersion`",
 				"a handshake line can be accepted without its core protocol version (field 1) being equal to CoreProtocolVersion")
+			// the wire value itself: every released plugin and host announces core version 1
+			if cc, isC := coreConst.(*types.Const); isC {
+				if v, exact := constant.Int64Val(cc.Val()); exact && v == 1 {
+					c.R.Hold("R-GATE", p.PosOf(cc.Pos()), f.Name, "G-core/value", "CoreProtocolVersion == 1", true)
+				} else {
+					c.R.Violate("R-GATE", p.PosOf(cc.Pos()), f.Name, "G-core/value", "CoreProtocolVersion is "+cc.Val().String()+", not 1: the client refuses every handshake line of a plugin built against the released protocol (core version 1) and accepts lines that announce another core version", nil)
+				}
+			}
 		}
 	}
 	// G-app
